@@ -168,3 +168,114 @@ def typed_problem(live, ann: Any, obj: Any, path: str = "$", depth: int = 0) -> 
             return None
         return None if isinstance(obj, ann) else f"{path}: expected {ann.__name__}, got {type(obj).__name__}"
     return None
+
+
+# ---------------------------------------------------------------------------------------------
+# structural comparison (anonymous literal / and types are compared by structure, not by generated name)
+# ---------------------------------------------------------------------------------------------
+
+
+def contains_anonymous(t: Dict) -> bool:
+    k = t["kind"]
+    if k == "literal":
+        return bool(t["value"]["properties"])
+    if k == "and":
+        return True
+    if k == "array":
+        return contains_anonymous(t["element"])
+    if k == "map":
+        return contains_anonymous(t["value"])
+    if k in ("or", "tuple"):
+        return any(contains_anonymous(i) for i in t["items"])
+    return False
+
+
+def annotation_matches(live, mm: MetaModel, ann: Any, t: Dict, optional: bool, depth: int = 0) -> bool:
+    """ann is the mapping of t (wrapped in Optional when optional or null-admitting); literals matched structurally."""
+    if not contains_anonymous(t):
+        try:
+            return ann == expected_annotation(mm, live.types, t, optional)
+        except Unmappable:
+            return False
+    if optional or mm.null_admitting(t):
+        if typing.get_origin(ann) is not Union or NoneType not in typing.get_args(ann):
+            return False
+        rest = [a for a in typing.get_args(ann) if a is not NoneType]
+        ann2 = rest[0] if len(rest) == 1 else Union[tuple(rest)]
+        t2 = t
+        if t["kind"] == "or":
+            items = [i for i in t["items"] if not (i["kind"] == "base" and i["name"] == "null")]
+            t2 = items[0] if len(items) == 1 else {"kind": "or", "items": items}
+        return _struct_match(live, mm, ann2, t2, depth)
+    return _struct_match(live, mm, ann, t, depth)
+
+
+def _struct_match(live, mm: MetaModel, ann: Any, t: Dict, depth: int) -> bool:
+    if depth > 12:
+        return True
+    if not contains_anonymous(t):
+        try:
+            return ann == _map(mm, live.types, t)
+        except Unmappable:
+            return False
+    k = t["kind"]
+    origin = typing.get_origin(ann)
+    if k in ("literal", "and"):
+        props = t["value"]["properties"] if k == "literal" else mm.and_props(t)
+        if not (isinstance(ann, type) and live.attrs.has(ann)):
+            return False
+        fields = {(live.wire_name(ann, a.name) or a.name): a for a in live.attrs.fields(ann)}
+        if set(fields) != {p["name"] for p in props}:
+            return False
+        return all(annotation_matches(live, mm, fields[p["name"]].type, p["type"], bool(p.get("optional")), depth + 1) for p in props)
+    if k == "array":
+        args = typing.get_args(ann)
+        return getattr(origin, "__name__", "") in ("Sequence", "list") and len(args) == 1 and _struct_match(live, mm, args[0], t["element"], depth + 1)
+    if k == "map":
+        args = typing.get_args(ann)
+        return getattr(origin, "__name__", "") in ("dict", "Dict") and len(args) == 2 and _struct_match(live, mm, args[1], t["value"], depth + 1)
+    if k == "tuple":
+        args = typing.get_args(ann)
+        return getattr(origin, "__name__", "") in ("tuple", "Tuple") and len(args) == len(t["items"]) and all(_struct_match(live, mm, a, it, depth + 1) for a, it in zip(args, t["items"]))
+    if k == "or":
+        args = list(typing.get_args(ann)) if origin is Union else [ann]
+        items = list(t["items"])
+        used = set()
+        for it in items:
+            hit = None
+            for i, a in enumerate(args):
+                if i in used:
+                    continue
+                if (it["kind"] == "base" and it["name"] == "null" and a is NoneType) or (not (it["kind"] == "base" and it["name"] == "null") and _struct_match(live, mm, a, it, depth + 1)):
+                    hit = i
+                    break
+            if hit is None:
+                return False
+            used.add(hit)
+        return len(used) == len(args)
+    return False
+
+
+def all_anonymous_types(mm: MetaModel) -> List[Dict]:
+    out: List[Dict] = []
+
+    def walk(t):
+        k = t["kind"]
+        if k == "literal":
+            if t["value"]["properties"]:
+                out.append(t)
+            for p in t["value"]["properties"]:
+                walk(p["type"])
+        elif k == "and":
+            out.append(t)
+        elif k == "array":
+            walk(t["element"])
+        elif k == "map":
+            walk(t["value"])
+        elif k in ("or", "tuple"):
+            for i in t["items"]:
+                walk(i)
+
+    for _, t in mm.all_types_iter():
+        walk(t)
+    return out
